@@ -11,6 +11,7 @@ import (
 	"github.com/dpb587/rdfkit-go/ontology/rdf/rdfiri"
 	"github.com/dpb587/rdfkit-go/ontology/xsd/xsdiri"
 	"github.com/dpb587/rdfkit-go/rdf"
+	"io"
 )
 
 func reader_scan_Object(r *Decoder, ectx evaluationContext, r0 cursorio.DecodedRune, err error) (readerStack, error) {
@@ -288,7 +289,18 @@ func reader_scan_Object(r *Decoder, ectx evaluationContext, r0 cursorio.DecodedR
 			return readerStack{ectx, reader_scan_object_PrefixedName}, nil
 		}
 
-		// TODO verify next rune? avoid trueprefix:localname; need to figure out delimiters?
+		// a longer name which merely starts with the keyword (true:x, falsehood:x) is a prefixed name
+		if rN, err := r.buf.NextRune(); err != nil {
+			if !errors.Is(err, io.EOF) {
+				return readerStack{}, grammar.R_object.Err(r.newOffsetError(err, cursorio.NewDecodedRunes(r0, r1, r2, r3), cursorio.DecodedRunes{}))
+			}
+		} else if rN.Rune == ':' || internal.IsRune_PN_CHARS(rN.Rune) {
+			r.buf.BacktrackRunes(r0, r1, r2, r3, rN)
+
+			return readerStack{ectx, reader_scan_object_PrefixedName}, nil
+		} else {
+			r.buf.BacktrackRunes(rN)
+		}
 
 		return r.emit(statement{
 			quad: rdf.Quad{
@@ -346,7 +358,18 @@ func reader_scan_Object(r *Decoder, ectx evaluationContext, r0 cursorio.DecodedR
 			return readerStack{ectx, reader_scan_object_PrefixedName}, nil
 		}
 
-		// TODO verify next rune? avoid trueprefix:localname; need to figure out delimiters?
+		// a longer name which merely starts with the keyword (true:x, falsehood:x) is a prefixed name
+		if rN, err := r.buf.NextRune(); err != nil {
+			if !errors.Is(err, io.EOF) {
+				return readerStack{}, grammar.R_object.Err(r.newOffsetError(err, cursorio.NewDecodedRunes(r0, r1, r2, r3, r4), cursorio.DecodedRunes{}))
+			}
+		} else if rN.Rune == ':' || internal.IsRune_PN_CHARS(rN.Rune) {
+			r.buf.BacktrackRunes(r0, r1, r2, r3, r4, rN)
+
+			return readerStack{ectx, reader_scan_object_PrefixedName}, nil
+		} else {
+			r.buf.BacktrackRunes(rN)
+		}
 
 		return r.emit(statement{
 			quad: rdf.Quad{
